@@ -96,7 +96,9 @@ class Gen:
         self.bound = set()
         self.nnodes = 1
         self.multi = cls in ("sections", "edits+sections", "xsec")
-        self.local_labels = cls != "xsec"
+        # labels used across sections in half of the multi-section programs (defect #18 is repaired: new_fixup routes such references
+        # to the cross-section list), section-local in the others
+        self.local_labels = cls != "xsec" and rng.random() < 0.5
         # how often a program contains calls the assembler is likely to refuse (finalize stops at the first one):
         # one third of the programs are noisy, the others mostly clean so that whole programs reach the byte comparison
         self.noise = 1.0 if rng.random() < 0.33 else 8.0
@@ -266,6 +268,9 @@ def gen_programs(rng, tier, menus):
         progs.append(Program(arch, "builder", 0, ["newlabel", "elabel L0 3", "edelta L0 L0 3", "elabel L7 3", "elabel L7 8"], "corner"))
         progs.append(Program(arch, "builder", 0, ["newsection", "section S1", "embed 01", "section S0", "embed 02", "section S1", "embed 03",
                                                   "remove 1", "section S0", "embed 04", "addbefore 1 0", "section S1", "embed 05"], "corner"))
+    # witness of the open finding C08-K2 (cross-section label delta under section re-entry)
+    progs.append(Program("x64", "builder", 0, ["newlabel", "newlabel", "newsection", "section S1", "edelta L1 L0 8", "section S0",
+                                               "bind L0", "embed 0102", "bind L1"], "corner"))
     classes = ["plain"] * 4 + ["sections"] * 3 + ["edits"] * 3 + ["edits+sections"] * 3 + ["xsec"]
     for i in range(n):
         arch = rng.choice(("x64", "x64", "x86", "a64"))
@@ -408,13 +413,13 @@ def pipeline(h, progs):
                 ml.append("mC " + l[2:])
             elif l.startswith("F "):
                 ml.append("mFB " + l[2:])
-            elif l.startswith("D "):
-                ml.append("mDB " + l[2:])
+            elif l.startswith("D ") or l.startswith("I "):
+                ml.append("mDB " + l)
         for l in a:
             if l.startswith("F "):
                 ml.append("mFA " + l[2:])
-            elif l.startswith("D "):
-                ml.append("mDA " + l[2:])
+            elif l.startswith("D ") or l.startswith("I "):
+                ml.append("mDA " + l)
         # call-time errors: what the Builder refused at call time the Assembler must refuse with the same code (`~` lines)
         if how == "verbatim":
             ar = [l for l in a if l.startswith("R ")][1:1 + len(p.ops)]
@@ -440,6 +445,10 @@ def pipeline(h, progs):
             results[i]["verdict"] = out[k] if out[k] == "good" else out[k] + " [assembler given the %s]" % how
             if out[k] != "good":
                 results[i]["kind"] = classify(out[k])
+                a = results[i]["a"][how]
+                b = results[i]["b"]
+                results[i]["image_equal"] = [l for l in a if l.startswith("I ")] == [l for l in b if l.startswith("I ")]
+                results[i]["how"] = how
     return results
 
 
@@ -459,20 +468,21 @@ def classify(verdict):
     return "other"
 
 
-def uses_cross_section_labels(s_lines):
-    """the class behind defect #18 (C03): in the edited sequence a label is referenced from a section other than the one it is bound in"""
+def has_cross_section_delta(s_lines):
+    """finding C08-K2: an embed_label_delta issued in one section whose two labels are bound together in another section. Issued before the
+    binds the Assembler records a relocation expression, issued after them it stores the value at once; the Builder's section grouping
+    changes which of the two happens, so section bytes / relocation records differ although the relocated image is the same."""
     cur = 0
-    bound_in, refs = {}, []
+    bound_in, deltas = {}, []
     for o in s_lines:
         w = o.split()
         if w[0] == "section" and w[1][1:].isdigit():
             cur = int(w[1][1:])
         elif w[0] == "bind":
             bound_in[w[1]] = cur
-        for t in w[1:]:
-            if t[0] in "LMN" and t[1:].isdigit() and w[0] != "bind":
-                refs.append(("L" + t[1:], cur))
-    return any(l in bound_in and bound_in[l] != s for l, s in refs)
+        elif w[0] == "edelta":
+            deltas.append((w[1], w[2], cur))
+    return any(a in bound_in and b in bound_in and bound_in[a] == bound_in[b] != s for a, b, s in deltas)
 
 
 def run(res):
@@ -536,8 +546,8 @@ def run(res):
     for p, r in bad:
         kind = r["kind"] or "other"
         key = kind
-        if kind in ("code", "error") and uses_cross_section_labels(r.get("s", [])):
-            key = "xsection-bound-label-fixup"
+        if kind == "code" and r.get("how") == "verbatim" and r.get("image_equal") and has_cross_section_delta(r.get("s", [])):
+            key = "xsection-label-delta"
         if key in reported:
             continue
         reported.add(key)
@@ -588,7 +598,7 @@ def replay(data):
         print("builder  ", l)
     for how, a in r.get("a", {}).items():
         for l in a:
-            if l[0] in "FD":
+            if l[0] in "FDI":
                 print("assembler (%s)" % how, l)
     print("verdict:", r["verdict"])
     return 0 if r["verdict"] == "good" else 1
